@@ -253,6 +253,28 @@ out:
 	return (rc);
 }
 
+/* The single-address wrapper, without and with sock_addr_ensure_port(). */
+int
+shim_sock_resolve_one(const char * s, int expect_some, char msg[SHIM_MSG])
+{
+	struct sock_addr * sa;
+	int addport, rc = 0;
+
+	msg[0] = 0;
+	for (addport = 0; addport < 2; addport++) {
+		sa = sock_resolve_one(s, addport);
+		if (sa != NULL) {
+			rc = check_addr(sa, msg);
+			sock_addr_free(sa);
+			if (rc)
+				goto out;
+		} else if (addport == 0 && expect_some)
+			FAIL("sock_resolve_one(addr, 0) returned NULL although sock_resolve(addr) returned an address");
+	}
+out:
+	return (rc);
+}
+
 int
 shim_ensure_port(const char * s, long * outlen, char msg[SHIM_MSG])
 {
